@@ -80,7 +80,14 @@ func Loaded() bool { load(); return loaded }
 func ModelHarness() string { load(); return model.Harness }
 
 // Reset prepares for another native run.
-func Reset() { Failed = nil; Skipped = false; Reached = nil; freshPos = map[string]int{} }
+func Reset() {
+	Failed = nil
+	Skipped = false
+	Reached = nil
+	freshPos = map[string]int{}
+	secrets = nil
+	sinks = nil
+}
 
 // Symbolic reports whether the harness runs under the symbolic engine.
 func Symbolic() bool { return false }
@@ -273,3 +280,27 @@ func AllowTagsInFresh() {}
 
 // DeepEqual is structural equality (reflect.DeepEqual natively; a single term symbolically).
 func DeepEqual(a, b interface{}) bool { return reflect.DeepEqual(a, b) }
+
+var (
+	secrets [][]byte
+	sinks   [][]byte
+)
+
+// Secret marks bytes as secret key material.
+func Secret(b []byte) { secrets = append(secrets, append([]byte{}, b...)) }
+
+// Sink records bytes that leave the trusted boundary (storage write, cache, export bundle).
+func Sink(kind string, b []byte) { sinks = append(sinks, append([]byte{}, b...)) }
+
+// NoLeak asserts that nothing written to a sink depends on a secret. Symbolically this is a non-interference
+// query; natively it is the weaker check that no sink contains a secret as a contiguous window.
+func NoLeak(id string) {
+	for _, s := range secrets {
+		for _, k := range sinks {
+			if len(s) > 0 && bytes.Contains(k, s) {
+				Assert(false, id)
+				return
+			}
+		}
+	}
+}
